@@ -35,9 +35,8 @@ def showOutcome : Outcome → String
 
 def parseCEv (w : String) : Option CEv :=
   match w.splitOn ":" with
-  | ["conn", a] => a.toNat?.map .connResp
+  | ["resp", a, c] => a.toNat?.map (fun a => .resp a (c == "1"))
   | ["timeout"] => some .timeoutFire
-  | ["disc", a, c] => a.toNat?.map (fun a => .discResp a (c == "1"))
   | ["disctimeout"] => some .discTimeout
   | _ => none
 
